@@ -36,7 +36,7 @@ structure Pat where
 structure Sub where
   sid : Nat
   vol : Nat
-  pan : Nat
+  pan : Int
   xpo : Int
   fin : Int
   deriving DecidableEq, Repr, Inhabited
@@ -432,6 +432,22 @@ instance : (i : Nat) → (xs : List Ins) → (ms : List Smp) → Decidable (Slot
     infer_instance
   | _, [], _ :: _ => isFalse (by simp [SlotsOk])
   | _, _ :: _, [] => isFalse (by simp [SlotsOk])
+
+/-- No sample body, read at its position in the file, starts with the ModPlug "ADPCM" tag: the loader
+probes the next 5 bytes of the *file*, so short samples must not spell the tag together with their
+successors (found by the round-trip proof: `SlotOk` alone is not sufficient). -/
+def NoAdpcm : List Smp → Prop
+  | [] => True
+  | m :: ms => (m.len ≠ 0 → ((m :: ms).flatMap (·.pcm)).take 5 ≠ adpcmTag) ∧ NoAdpcm ms
+
+def NoAdpcm.dec : (ms : List Smp) → Decidable (NoAdpcm ms)
+  | [] => isTrue trivial
+  | m :: ms => by
+    unfold NoAdpcm
+    have := NoAdpcm.dec ms
+    infer_instance
+
+instance (ms : List Smp) : Decidable (NoAdpcm ms) := NoAdpcm.dec ms
 
 /-- Well-formed MOD song + writer options: 31 instrument slots, 64-row patterns, notes of the
 five-octave period table, the order table reaches every stored pattern, speed 6 / tempo 125. -/
